@@ -191,6 +191,29 @@ def numpy_fn(I, n, args, kw, st, node):
         return v_round(I, args[0], args[1] if len(args) > 1 else 0, st, node) if len(args) > 1 else v_round(I, args[0], None, st, node)
     if n in ("sort", "unique"):
         return Opaque("np.%s" % n)
+    if n == "clip":
+        x, lo, hi = args[0], args[1], args[2]
+        if I.arr(st, x) is not None:
+            raise ToolLimit("np.clip on an array")
+        return V.v_min(V.v_max(x, lo), hi)
+    if n in ("abs", "absolute", "fabs"):
+        return V.v_abs(args[0])
+    if n == "where" and len(args) == 3 and I.arr(st, args[1]) is None and I.arr(st, args[2]) is None and not isinstance(args[0], MaskV):
+        return ite(truth(args[0]), args[1], args[2])
+    if n == "square":
+        return arith("*", args[0], args[0])
+    if n in ("floor", "ceil"):
+        x = args[0]
+        if is_num(x):
+            import math
+            return math.floor(x) if n == "floor" else math.ceil(x)
+        r = I.ctx.fresh(n, "Int")
+        zx = z(x, True)
+        if n == "floor":
+            st.pc.append(z3.And(z3.ToReal(r) <= zx, zx < z3.ToReal(r) + 1))
+        else:
+            st.pc.append(z3.And(z3.ToReal(r) >= zx, zx > z3.ToReal(r) - 1))
+        return r
     if n == "isnan":
         return False   # reals have no nan (stated assumption)
     raise ToolLimit("np.%s (line %s)" % (n, node.lineno))
@@ -282,7 +305,9 @@ def modular_call(I, c, args, kw, st, node):
     for k2, v in kw.items():
         bound[k2] = v
     if len(bound) != len(pnames):
-        raise ToolLimit("modular call %s: %d args for %d params" % (c.name, len(bound), len(pnames)))
+        raise ToolLimit("modular call %s: %d args for %d params (signature or call site changed)" % (c.name, len(bound), len(pnames)))
+    for g, ty in c.ghost.items():
+        bound[g] = I.make_input(st, g, ty, writable=False)
     # evaluate requires in callee scope over the caller's heap
     cs = st.copy()
     cs.locals = dict(bound)
